@@ -36,7 +36,9 @@ WORDS = ['WHOLE', 'FOODS', 'MARKET', 'Starbucks', 'store', 'UBER', 'EATS', 'AMZN
          # brackets that do not balance within the words discover keeps; typographic quotes
          '(GAM', '[REF', 'REFUND)', 'x]', '(BAZ', 'QUX)', '{open', 'close}', 'JOE\u2019S', '\u201cBEST\u201d', '\u2018n\u2019', '\u00abX\u00bb',
          # an inch / quote mark followed later by a hash; repeated words
-         '12"', "5'", 'A"B', '#4521', '#9', 'PIZZA', 'PIZZA', 'TACO', 'TO']
+         '12"', "5'", 'A"B', '#4521', '#9', 'PIZZA', 'PIZZA', 'TACO', 'TO',
+         # compatibility characters (trade mark, ellipsis, ordinal indicator, full-width letters, ligature)
+         "JOE'S\u2122", 'PMTS\u2026', 'N.\u00ba', '\uff21\uff2d\uff21\uff3a\uff2f\uff2e', '\ufb01ne', '\u2460']
 PREFIX = ['', '', '', 'SQ *', 'TST*', 'TST* ', 'APLPAY ', 'SP ', 'PP*', 'GOOGLE *', 'sq *', 'Tst*']
 SUFFIX = ['', '', ' WA', ' CA', ' 98101', ' 12345678 SEATTLE', ' #1234', ' #12', ' 1234567', ' wa', ' NY 10001', ' 0042', ' x1']
 MIDDLE = ['', '', '', ' #123', ' 12', ' #7', ' 00123']
@@ -88,6 +90,26 @@ def check_rule_text(rec, where, desc, rule_text, case):
             key += ':escaped-metachar-inside-contains'
         rec.violation(key, f'{where}: the rule suggested for {desc!r} does not match it: {expr!r}', case)
         return False
+    # ... and through the path `tally up` / `discover` take: rules file on disk -> get_all_rules -> normalize_merchant
+    from tally import merchant_utils as mu
+    tmpd = tempfile.mkdtemp(prefix='vt-c19-r-')
+    try:
+        pth = os.path.join(tmpd, 'merchants.rules')
+        with open(pth, 'w', encoding='utf-8') as f:
+            f.write(text + '\n')
+        mu.clear_engine_cache()
+        rules = mu.get_all_rules(pth)
+        m_, c_, s_, info = mu.normalize_merchant(desc, rules, amount=12.5, txn_date=None, field=None, data_source='S')
+        rec.count('production_path_suggestion_checks')
+        if c_ == 'Unknown':
+            rec.violation('suggestion-does-not-match:production-path', f'{where}: with the suggested rule on disk, normalize_merchant still leaves {desc!r} Unknown '
+                          f'(rule text {rule_text!r})', case)
+            return False
+    except Exception as e:
+        rec.violation('suggestion-match-raises', f'{where}: production path: {type(e).__name__}: {e}', case)
+        return False
+    finally:
+        shutil.rmtree(tmpd, ignore_errors=True)
     return True
 
 
@@ -128,9 +150,13 @@ def make_budget(tmp, k, descs, with_rules=''):
     return b
 
 
-def tally(b, *args):
+def tally(b, *args, force_color=False):
     env = dict(os.environ, PYTHONPATH=core.SRC, PYTHONDONTWRITEBYTECODE='1', NO_COLOR='1')
     env.pop('TALLY_CONFIG', None)
+    if force_color:
+        # stdout is still a pipe (the user redirects the suggestions into a file): whatever the colour settings say, what lands there is rule text
+        env.pop('NO_COLOR', None)
+        env.update(FORCE_COLOR='1', CLICOLOR_FORCE='1', TERM='xterm-256color')
     return subprocess.run([core.PY, '-m', 'tally'] + list(args), cwd=b, env=env, capture_output=True, text=True, stdin=subprocess.DEVNULL, timeout=180)
 
 
@@ -164,7 +190,13 @@ def cli_loop(rec, rnd, tmp, k):
         all_ok = all_ok and ok
         rules.append(it['suggested_rule'].replace('category: CATEGORY', 'category: Cat').replace('subcategory: SUBCATEGORY', 'subcategory: Sub'))
     # text format: the printed block
-    pt = tally(b, 'discover', os.path.join(b, 'config'), '--format', 'text', '-n', '0')
+    forced = rnd.random() < .5
+    pt = tally(b, 'discover', os.path.join(b, 'config'), '--format', 'text', '-n', '0', force_color=forced)
+    if forced:
+        rec.count('text_runs_with_colour_forced_on_a_pipe')
+        if '\x1b[' in pt.stdout:
+            rec.violation('terminal-escape-codes-in-piped-rule-text', f'discover text output on a pipe contains ANSI escape sequences inside what the user saves as rules: '
+                          f'{pt.stdout[pt.stdout.index(chr(27)) - 20:pt.stdout.index(chr(27)) + 40]!r}', case)
     blocks = re.findall(r'^\d+\. (.*)\n(?:.*\n)*?\s*\[(.*)\]\n\s*match: (.*)\n\s*category: CATEGORY', pt.stdout, re.M)
     for shown, name, match in blocks:
         full = [d for d in [i['raw_description'] for i in items] if d[:60] == shown]
